@@ -1,5 +1,7 @@
 // Engine binary for the system-level checks (whole Teakra facade): C14 ...
 #include "c06_slices.h"
+#include "c07_irq.h"
+#include "c12_mmio.h"
 #include "c14_apbp.h"
 
 int main(int argc, char** argv) {
@@ -10,12 +12,20 @@ int main(int argc, char** argv) {
     if (!args.replay.empty()) {
         if (args.replay.rfind("c06", 0) == 0)
             return c06::RunReplay(args.replay, res);
+        if (args.replay.rfind("c07", 0) == 0)
+            return c07::RunReplay(args.replay, res);
+        if (args.replay.rfind("c12", 0) == 0)
+            return c12::RunReplay(args.replay, res);
         if (args.replay.rfind("c14", 0) == 0)
             return c14::RunReplay(args.replay, res);
         return 2;
     }
     if (args.sub == "c06") {
         c06::Run(args, res);
+    } else if (args.sub == "c07") {
+        c07::Run(args, res);
+    } else if (args.sub == "c12") {
+        c12::Run(args, res);
     } else if (args.sub == "c14") {
         c14::Run(args, res);
     } else {
